@@ -7,7 +7,8 @@
 //   C key to  S key to  Q     config change / snapshot / raft log query request
 //   D i   L i                 client drains the channels of request i / calls Release
 //   TP b  TR  AR lo hi  RY lo hi idx  RA a  RD lo hi  T t  GP k  GC  GS
-//   DP cid sid key  DC key  TC  TS  QR oor a b          (step worker)
+//   DP cid sid key  DC key  TC  TS  QR oor a b          (step worker; T is the real node.tick)
+//   QS b                      the shard enters (1) / leaves (0) the quiesced state
 //   AP cid sid key v rej  CA key rej  SA key ign abo idx (apply worker)
 //   CP cid sid key  CC key  CB cid sid key  CF           (commit worker; CB/CF = the two halves of
 //                                                          proposalShard.committed, replay only)
@@ -69,6 +70,7 @@ type world struct {
 	readyOK   map[string]bool // ctx whose index was covered by a later RA
 	lqOut     bool
 	assumeBad bool // the case itself broke an environment assumption (double close ...)
+	clockStuck string
 	committed map[string]bool
 }
 
@@ -314,7 +316,18 @@ func (w *world) doOp(f []string) string {
 		if w.tick > w.maxTick {
 			w.maxTick = w.tick
 		}
-		v.Tick(w.tick)
+		// the real node.tick: raft tick (quiesced or not) + the table clocks
+		if err := v.NodeTick(w.tick); err != nil {
+			panic("node.tick: " + err.Error())
+		}
+		for _, c := range v.Clocks() {
+			if c != w.tick {
+				w.clockStuck = fmt.Sprintf("node.tick(%d) left a request table clock at %d (quiesced=%v)", w.tick, c, v.Quiesced())
+			}
+		}
+	case "QS":
+		// the shard becomes quiesced / active again; invisible to the request tables
+		v.SetQuiesced(f[1] == "1")
 	case "GP":
 		v.GcProposals(u(f[1]))
 	case "GC":
@@ -448,7 +461,9 @@ func (w *world) finale() string {
 		}
 		t += 10
 		w.maxTick = t
-		v.Tick(t)
+		if err := v.NodeTick(t); err != nil {
+			panic("node.tick: " + err.Error())
+		}
 		v.AddReads(1<<63+1, t+30)
 		v.TakeReads()
 		v.AddReads(1<<63+2, t+30)
@@ -646,6 +661,9 @@ func runCase(line string, st *vh.Stats) string {
 		}
 		out = append(out, "Z="+w.sizes())
 		// ---- property monitor (implementation alone) ----
+		if w.clockStuck != "" {
+			st.Violation(id, w.clockStuck)
+		}
 		if !w.assumeBad {
 			if p := w.finale(); p != "" {
 				st.Violation(id, "panic while the node winds down: "+p)
